@@ -1,11 +1,11 @@
 SPECIFICATION Spec
 CONSTANTS
   Mode = "selector"
-  MaxNodes = 3
+  MaxNodes = 2
   MaxSteps = 2
   MaxDecls = 0
-  Small = TRUE
-  EmitOneIn = 20
+  Small = FALSE
+  EmitOneIn = 80
   Emit = TRUE
 INVARIANTS Inv_Selector Inv_Cascade Inv_Hide Inv_Emit
 CHECK_DEADLOCK FALSE
